@@ -377,7 +377,7 @@ Fixpoint readers_of (keys:list Z) (cols:frame) : res (list field) :=
   | [] => Ok []
   | k :: t =>
     match lookup k cols with
-    | None => Raise E_KeyError
+    | None => Raise E_ValueError      (* DataFrame.__getitem__: "There is no field named ..." *)
     | Some f => do r <- readers_of t cols; Ok (f :: r)
     end
   end.
